@@ -605,3 +605,69 @@ Definition run_hx3 (g : gr) (nodes : option (list N)) (its : bool) : tok :=
   L [run_hx2 g nodes its; tbool (gwfb g); tbool (no_H g); tbool (no_tgh g)].
 Definition run_its3 (its : gr) (core reindex explicit_h : bool) : tok :=
   L [run_its2 its core reindex explicit_h; tbool (gwfb its); tbool (all_tgh its)].
+
+(** * MolToGraph.transform / GraphToMol.graph_to_mol: the attribute copying between an RDKit molecule and the graph
+    (synkit/IO/mol_to_graph.py:110-200, synkit/IO/graph_to_mol.py:48-135).  What the code reads from RDKit is an input of
+    the model: per atom (in index order) GetSymbol, GetIsAromatic, GetTotalNumHs, GetFormalCharge, GetAtomMapNum; per bond
+    GetBeginAtomIdx, GetEndAtomIdx, 2 * GetBondTypeAsDouble.  What it hands back to RDKit (the RWMol before sanitisation)
+    is the output: per atom symbol, formal charge, atom map (if the key is present), NoImplicit + explicit H count (if the
+    hcount key is present); per bond the two atom indices and 2 * the bond type as double. *)
+Record ratom := RAt { r_sym : str; r_arom : bool; r_hs : Z; r_chg : Z; r_map : Z }.
+Definition rmol := (list ratom * list (N * N * Z))%type.
+
+Definition atom_id (ui : bool) (idx : N) (a : ratom) : N :=
+  if ui && negb (r_map a =? 0) then Z.to_N (r_map a) else N.succ idx.
+Definition atom_att (a : ratom) : natt :=
+  NA (Some (r_sym a)) (Some (r_arom a)) (Some (r_hs a)) (Some (r_chg a)) (Some (r_map a)) None.
+(** the node loop: state = (graph, index_to_id as an association list, latest binding first) *)
+Fixpoint m2g_nodes (drop ui : bool) (idx : N) (atoms : list ratom) (st : gr * list (N * N)) : gr * list (N * N) :=
+  match atoms with
+  | [] => st
+  | a :: r =>
+      m2g_nodes drop ui (N.succ idx) r
+        (if drop && (r_map a =? 0) then st
+         else (add_node (fst st) (atom_id ui idx a) (atom_att a), (idx, atom_id ui idx a) :: snd st))
+  end.
+Definition m2g_bond (i2id : list (N * N)) (acc : gr) (b : N * N * Z) : gr :=
+  let '(bi, ei, o) := b in
+  match assoc bi i2id, assoc ei i2id with
+  | Some u, Some v => add_edge acc u v (EA (Some (OS o)) None)
+  | _, _ => acc
+  end.
+Definition mol_to_graph (m : rmol) (drop ui : bool) : gr :=
+  let st := m2g_nodes drop ui 0%N (fst m) (g_empty, []) in
+  fold_left (m2g_bond (snd st)) (snd m) (fst st).
+
+Record watom := WAt { w_sym : str; w_chg : Z; w_map : option Z; w_hs : option Z }.
+(** get_bond_type_from_order(abs(order)) in half-units: 1 -> SINGLE, 2 -> DOUBLE, 3 -> TRIPLE, anything else AROMATIC *)
+Definition bond_type (o : Z) : Z :=
+  let a := Z.abs o in if a =? 2 then 2 else if a =? 4 then 4 else if a =? 6 then 6 else 3.
+Fixpoint index_of (n : N) (l : list N) (i : N) : option N :=
+  match l with [] => None | x :: r => if N.eqb x n then Some i else index_of n r (N.succ i) end.
+Definition g2m_atom (a : natt) : watom := WAt (dflt (a_el a) s_star) (dflt (a_ch a) 0) (a_am a) (a_hc a).
+Definition g2m_bond (ids : list N) (e : N * N * eatt) : option (N * N * Z) :=
+  let '(u, v, x) := e in
+  match e_ord x with
+  | Some (OP _ _) => None          (* abs() of a tuple raises *)
+  | o => match index_of u ids 0%N, index_of v ids 0%N with
+         | Some i, Some j => if N.eqb i j then None   (* RWMol.AddBond(i, i) raises *)
+                             else Some (i, j, bond_type (match o with Some (OS z) => z | _ => 2 end))
+         | _, _ => None
+         end
+  end.
+(** None = the call raises (graph_to_smi then returns None) *)
+Definition graph_to_mol (g : gr) : option (list watom * list (N * N * Z)) :=
+  let bonds := map (g2m_bond (node_ids g)) (edges_iter g) in
+  if forallb (fun b : option (N * N * Z) => match b with Some _ => true | None => false end) bonds
+  then Some (map (fun p : N * natt => g2m_atom (snd p)) (gnodes g),
+             flat_map (fun b : option (N * N * Z) => match b with Some x => [x] | None => [] end) bonds)
+  else None.
+
+Definition t_watom (a : watom) : tok := L [t_str (w_sym a); I (w_chg a); I (dflt (w_map a) 0); topt I (w_hs a)].
+Definition t_wmol (m : option (list watom * list (N * N * Z))) : tok :=
+  topt (fun x : list watom * list (N * N * Z) =>
+          L [tlist t_watom (fst x);
+             tset (fun b : N * N * Z => let '(i, j, o) := b in L [tN (N.min i j); tN (N.max i j); I o]) (snd x)]) m.
+(** one molecule, one setting of (drop_non_aam, use_index_as_atom_map): the graph, and the molecule rebuilt from it *)
+Definition run_molgraph (m : rmol) (drop ui : bool) : tok :=
+  let g := mol_to_graph m drop ui in L [t_gr_ord g; t_wmol (graph_to_mol g)].
